@@ -38,7 +38,7 @@ def flatten(res):
     return out
 
 
-def perturbed(desc, pars, keys, rng):
+def perturbed(desc, pars, keys, rng, names):
     """Other parameter values for the symbolic ones (kept admissible)."""
     d2, p2 = copy.deepcopy(desc), dict(pars)
     pv = {}
@@ -46,13 +46,13 @@ def perturbed(desc, pars, keys, rng):
         f = rng.uniform(0.85, 1.15)
         if eid == "#":
             p2[attr] = pars[attr] * f
-            pv[attr] = p2[attr]
+            pv[names[(eid, attr)]] = p2[attr]
         else:
             for grp in ("links", "origins"):
                 for e in d2[grp]:
                     if e["id"] == eid:
                         e[attr] = e[attr] * f
-                        pv[f"{attr}_{eid}"] = e[attr]
+                        pv[names[(eid, attr)]] = e[attr]
     return d2, p2, pv
 
 
@@ -71,7 +71,7 @@ def one(M, rec, rng, g, desc, pars, st):
     for k_ in keys:
         rec.seen("parameter_kinds", k_[1])
     rec.seen("n_params", len(keys))
-    d2, p2, pv2 = perturbed(desc, pars, keys, rng)
+    d2, p2, pv2 = perturbed(desc, pars, keys, rng, sym.param_name)
     variants = [("nominal", desc, pars, sym.pvalues)]
     variants.append(("perturbed", d2, p2, {k: pv2[k] for k in sym.parameters}))
     for vname, dN, pN, pvals in variants:
